@@ -18,15 +18,6 @@ import PdsVerif.DriverLoop
 import PdsVerif.Model.Si
 open PdsVerif PdsVerif.Model.Si
 
-structure GInt where
-  re : Int
-  im : Int
-  deriving Repr, DecidableEq
-
-instance : Add GInt := ⟨fun a b => ⟨a.re + b.re, a.im + b.im⟩⟩
-instance : Mul GInt := ⟨fun a b => ⟨a.re * b.re - a.im * b.im, a.re * b.im + a.im * b.re⟩⟩
-instance : Zero GInt := ⟨⟨0, 0⟩⟩
-
 def ofInt (z : Int) : GInt := ⟨z, 0⟩
 
 /-- integer square root with an exactness flag carried in the imaginary part -/
